@@ -211,4 +211,40 @@ pub fn run(out: &mut Out, tier: &str, seed: u64) {
     crate::pwstr::totality(out, tier, seed);
     crate::objapi::short_hash_records(out, &mut rng);
     crate::objapi::serde_field_lengths(out, &mut rng);
+    pwhash_record_lengths(out, &mut rng);
+}
+
+/// a stored password-hash record whose declared hash length is not the length of the hash it carries (only a serde record can say
+/// so; a string cannot): verify answers Err -- it neither panics nor sizes a buffer from the declared number
+fn pwhash_record_lengths(out: &mut Out, rng: &mut Rng) {
+    use dryoc::pwhash::{Config, PwHash, VecPwHash};
+    let pw = rng.bytes(7);
+    let salt = rng.bytes(16);
+    let cfg = Config::interactive().with_opslimit(1).with_memlimit(8192);
+    let h: VecPwHash = match guard(|| { let r: Result<VecPwHash, _> = PwHash::hash_with_salt(&pw, salt.clone(), cfg.clone()); r }) { Outcome::Ok(h) => h, _ => return };
+    let base = serde_json::to_value(&h).unwrap();
+    let declared = match base.get("config").and_then(|c| c.get("hash_length")).and_then(|v| v.as_u64()) { Some(d) => d, None => { out.hit("serde.PwHash.layout-unknown", "no config.hash_length field".into(), json!({"json": base.to_string()})); return; } };
+    // small disagreements the model follows too: the record built from parts
+    { let (hv, sv, _c) = h.clone().into_parts();
+      for hl in [16usize, 31, 33, 64] {
+          if hl as u64 == declared { continue; }
+          let rec = VecPwHash::from_parts(hv.clone(), sv.clone(), cfg.clone().with_hash_length(hl));
+          let r = guard(|| rec.verify(&pw));
+          out.case("pwhash.verify", &[b(&hv), b(&sv), Tok::I(hl as i64), Tok::B(1u64.to_le_bytes().to_vec()), Tok::B(8192u64.to_le_bytes().to_vec()), Tok::I(2), b(&pw)], &r.map(|_| vec![]), true);
+      } }
+    for hl in [0u64, 1, 15, declared.saturating_sub(1), declared + 1, 4096, 1 << 24, 1 << 63, u64::MAX - 1, u64::MAX] {
+        if hl == declared { continue; }
+        let mut v = base.clone();
+        v["config"]["hash_length"] = serde_json::Value::from(hl);
+        let text = v.to_string();
+        let rec = match guard_total(|| serde_json::from_str::<VecPwHash>(&text)) { Outcome::Ok(Ok(r)) => r, Outcome::Panic => { out.hit("serde.json.decode-panics.PwHash", format!("hash_length {}", hl), json!({"op":"serde.PwHash.verify","json":text})); continue; } _ => continue };
+        for (which, p) in [("right", pw.clone()), ("wrong", b"another".to_vec())] {
+            out.search_evaluations += 1;
+            let (r, a) = measured(|| guard(|| rec.verify(&p)));
+            let rp = json!({"op":"serde.PwHash.verify","json":text,"password":hx(&p),"declared_hash_length":hl,"hash_bytes":declared});
+            if r.is_panic() { out.hit("obj.pwhash.verify.panics.record-hash-length", format!("record declares hash_length {} and carries {} bytes ({} password)", hl, declared, which), rp.clone()); }
+            else if r.is_ok() { out.hit("obj.pwhash.verify.accepts.record-hash-length", format!("record declares hash_length {} and carries {} bytes ({} password)", hl, declared, which), rp.clone()); }
+            if a > (1 << 20) { out.hit("obj.pwhash.verify.absurd-allocation", format!("{} bytes requested: record declares hash_length {} and carries {} bytes", a, hl, declared), rp.clone()); }
+        }
+    }
 }
